@@ -114,7 +114,13 @@ type c16stepper struct {
 
 func (h *c16stepper) Handle(*ptracer.Context) ptracer.TraceAction { return ptracer.TraceAllow }
 func (h *c16stepper) Debug(v ...interface{}) {
-	if int(atomic.AddInt32(&h.n, 1))-1 == h.k {
+	i := int(atomic.AddInt32(&h.n, 1)) - 1
+	if h.k >= 0 {
+		// progress is announced so that the check can tell "the run has fewer steps" from "the helper is slow"
+		fmt.Println("STEP", i)
+		os.Stdout.Sync()
+	}
+	if i == h.k {
 		if atomic.LoadInt32(&h.options) == 0 {
 			fmt.Println("AT before-options-set")
 		} else {
@@ -327,6 +333,10 @@ func c16tracer(x *mc.X, tier string) {
 		x.Outcome("n/a:the-filterless-run-has-fewer-steps")
 		return
 	}
+	if !noFilter && k >= 36 {
+		x.Outcome("n/a:one-instant-after-the-last-step-is-enough")
+		return
+	}
 	nonce := newNonce()
 	self, _ := os.Executable()
 	cmd := exec.Command(self, "c16trace", fmt.Sprint(k))
@@ -342,27 +352,51 @@ func c16tracer(x *mc.X, tier string) {
 		return
 	}
 	defer func() { cmd.Process.Kill(); cmd.Wait() }()
-	reached := make(chan string, 1)
+	lines := make(chan string, 64)
 	go func() {
 		sc := bufio.NewScanner(out)
-		if sc.Scan() {
-			reached <- sc.Text()
-			return
+		for sc.Scan() {
+			lines <- sc.Text()
 		}
-		reached <- "EOF"
+		lines <- "EOF"
 	}()
-	said := ""
-	select {
-	case said = <-reached:
-	case <-time.After(3 * time.Second):
+	// the helper announces every tracer step; the wait is bounded by progress, not by the clock: as long as steps keep
+	// coming (or none has come yet: the helper is still starting on a loaded machine) the check waits; once the run has
+	// announced steps and then stays quiet, the program has reached its pause and step k does not exist
+	said, steps := "", 0
+	for said == "" {
+		quiet := 3 * time.Second
+		if steps == 0 {
+			quiet = 3 * horizon
+		}
+		select {
+		case l := <-lines:
+			if strings.HasPrefix(l, "STEP ") {
+				steps++
+			} else {
+				said = l
+			}
+		case <-time.After(quiet):
+			said = "QUIET"
+		}
+	}
+	if said == "QUIET" && steps == 0 {
+		x.Failf("C16/harness", "the tracing helper announced no step within %v", 3*horizon)
+		return
 	}
 	phase := ""
 	if strings.HasPrefix(said, "AT ") {
 		phase = "/" + said[3:]
 		said = "AT"
 	}
+	if said == "QUIET" {
+		// the run has fewer steps than k: the program has built its tree and sits in pause, the tracer waits. That is the
+		// crash point "while the program runs, after the last tracer step" (the only one at which a run whose tracer
+		// follows no forks has descendants at all)
+		phase = "/program-running-after-the-last-step"
+		said = "AT"
+	}
 	if said != "AT" {
-		// the run has fewer steps than k (it then blocks in pause for ever): nothing to pin
 		syscall.Kill(cmd.Process.Pid, syscall.SIGKILL)
 		cmd.Wait()
 		waitUntil(horizon, func() bool { return len(scanNonce(nonce)) == 0 })
